@@ -11,6 +11,7 @@ Step ==
        CASE e.ev = "Begin" -> BeginS(e)
          [] e.ev = "Month" -> MonthS(e)
          [] e.ev = "End" -> EndS
+         [] e.ev = "NoHerd" -> NoHerdS
   /\ l' = l + 1 /\ UNCHANGED tid
 Fin == /\ l = Len(Ev(tid)) + 1 /\ Mark(tid, l) /\ Ck("TraceEnded", hended)
        /\ MarkDone(tid) /\ l' = l + 1 /\ UNCHANGED <<tid, hvars>>
